@@ -74,8 +74,10 @@ BOUNDS = {
         "template_route_contexts": 2,
         "charsets": ["ascii", "latin-1", "cp1251", "shift_jis", "utf-8"],
         "other_charsets": "13 stateful / EBCDIC / multi-byte / utf-16,32,7 charsets x every string of <=3 characters over a 10-character alphabet (template route for <=2)",
+        "long_runs": "15 units (markup characters, a reference, blank, + %, one character per class, newline) repeated 15..1000 times (14 lengths around powers of two), and every ordered pair of a markup-ish unit with any unit alternating / as last / as first character",
     },
     "thorough": {
+        "long_runs": "as quick with 28 lengths up to 65537",
         "sequences": "handler/filters 20 characters (4 per class) x 5 charsets; policies 4 charsets x 3; 6+6+2 pairs of value kinds; 3 pairs of decode encodings; 6 encodings malformed/well-formed bytes; x 2 orders = 270 fresh interpreters",
         "reference_spellings": "132 spellings x 4 contexts + 132^2 ordered pairs (template routes on all)",
         "code_points": "every Unicode scalar value U+0000..U+10FFFF minus surrogates (1112064)",
@@ -90,6 +92,7 @@ BOUNDS = {
 }
 
 CHARSETS = ["ascii", "latin-1", "cp1251", "shift_jis", "utf-8"]
+LONG_LENS = {"quick": [15, 16, 17, 31, 32, 33, 63, 64, 65, 100, 255, 256, 257, 1000], "thorough": [15, 16, 17, 31, 32, 33, 63, 64, 65, 99, 100, 101, 127, 128, 129, 255, 256, 257, 511, 512, 513, 1000, 1023, 1024, 1025, 4096, 10000, 65537]}
 
 # pools of interchangeable data (the seed only picks from these)
 POOL_A = ["a", "k", "z", "Q"]  # filler before (never 'b': see _dewrap)
@@ -1145,6 +1148,7 @@ def plan(tier, seed):
         jobs.append({"kind": "refs", "tier": tier, "seed": seed, "shard": i, "nshards": NJOBS_REF})
     for i in range(4):
         jobs.append({"kind": "xcs", "tier": tier, "seed": seed, "shard": i, "nshards": 4})
+    jobs.append({"kind": "long", "tier": tier, "seed": seed})
     groups = seq_groups(tier, seed)
     seqjobs = [{"kind": "seq", "tier": tier, "seed": seed, "groups": groups[i::NJOBS_SEQ]} for i in range(NJOBS_SEQ)]
     # heavy (cp) shards first, permuted by the seed
@@ -1184,6 +1188,27 @@ def run_job(job):
                     st.sample({"family": "i", "context": t, "code_point": "U+%04X" % cp, "string": s})
         st.extra["code_points"] = len(cps)
         st.extra["strings_i"] = n
+    elif job["kind"] == "long":
+        # family viii: long runs - one unit repeated n times, and every pair of units alternating, for lengths around
+        # powers of two and the decimal boundaries (a count limit, a chunk size, a recursion depth show here only)
+        units = ["<", ">", "&", '"', "'", "&lt;", " ", "+", "%", d["A"], POOL_L1[seed % 4], POOL_NAMED[seed % 4], POOL_BMP[seed % 4], POOL_ASTRAL[seed % 4], "\n"]
+        lens = LONG_LENS[tier]
+        n = 0
+        for u in units:
+            for k in lens:
+                check_case(u * k, st, I, True)
+                n += 1
+        for a in units[:9]:
+            for b in units:
+                if a == b:
+                    continue
+                for k in lens[:6] + lens[-1:]:
+                    check_case((a + b) * k, st, I, k <= 100)
+                    check_case(a * k + b, st, I, False)
+                    check_case(b + a * k, st, I, False)
+                    n += 3
+        st.sample({"family": "viii", "unit": "<", "repeat": lens[-1]})
+        st.extra["strings_viii"] = n
     elif job["kind"] == "refs":
         sp = ref_spellings()
         rctx = [c.replace("A", d["A"]).replace("B", d["B"]) for c in REF_CONTEXTS]
